@@ -23,10 +23,14 @@ impl Pat {
   }
 }
 
-/// arm body: constant tag, or tag + a bound variable (so that the binding is observable)
+/// arm body: constant tag plus every variable the pattern binds, weighted by its position (so that each binding is observable)
 fn body(tag: u64, pat: &Pat) -> (String, Box<dyn Fn(&[(&'static str, u64)]) -> u64>) {
-  fn first_var(p: &Pat) -> Option<&'static str> { match p { Pat::Var(n) => Some(*n), Pat::Tup(v) => v.iter().find_map(first_var), _ => None } }
-  match first_var(pat) { Some(n) => (format!("{}u64 + {}", tag, n), Box::new(move |b| tag + b.iter().find(|(k, _)| *k == n).map(|x| x.1).unwrap_or(0))), None => (format!("{}u64", tag), Box::new(move |_| tag)) }
+  fn vars(p: &Pat, out: &mut Vec<&'static str>) { match p { Pat::Var(n) => out.push(*n), Pat::Tup(v) => v.iter().for_each(|q| vars(q, out)), _ => {} } }
+  let mut vs = Vec::new(); vars(pat, &mut vs);
+  let w = [1u64, 10, 1000];
+  let mut txt = format!("{}u64", tag);
+  for (i, n) in vs.iter().enumerate() { if i == 0 { txt.push_str(&format!(" + {}", n)); } else { txt.push_str(&format!(" + {}u64 * {}", w[i.min(2)], n)); } }
+  (txt, Box::new(move |b| tag + vs.iter().enumerate().map(|(i, n)| w[i.min(2)] * b.iter().find(|(k, _)| k == n).map(|x| x.1).unwrap_or(0)).sum::<u64>()))
 }
 
 fn permutations<T: Clone>(v: &[T]) -> Vec<Vec<T>> {
@@ -37,7 +41,9 @@ fn permutations<T: Clone>(v: &[T]) -> Vec<Vec<T>> {
 }
 
 fn push_arm_family(out: &mut Vec<Case>, cellname: &str, arms: &[Pat], nargs: usize, as_match: bool) {
-  let dom: Vec<Vec<u64>> = if nargs == 1 { (0..4).map(|a| vec![a]).collect() } else { (0..3).flat_map(|a| (0..3).map(move |b| vec![a, b])).collect() };
+  // nargs 23: subjects of mixed arity (pairs and triples), match expressions only
+  let dom: Vec<Vec<u64>> = if nargs == 1 { (0..4).map(|a| vec![a]).collect() } else if nargs == 2 { (0..3).flat_map(|a| (0..3).map(move |b| vec![a, b])).collect() }
+    else { let mut d: Vec<Vec<u64>> = (0..3).flat_map(|a| (0..3).map(move |b| vec![a, b])).collect(); for a in 0..2 { for b in 0..2 { for c in 1..3 { d.push(vec![a, b, c]); } } } d };
   for (pi, perm) in permutations(arms).into_iter().enumerate() {
     let has_wild = perm.iter().any(|p| *p == Pat::Wild);
     let mut arm_txt = Vec::new(); let mut evals: Vec<(Pat, Box<dyn Fn(&[(&'static str, u64)]) -> u64>)> = Vec::new();
@@ -86,6 +92,21 @@ impl Prop for C16 {
       ("f2;arms=(2,y),(x,2)", vec![Tup(vec![Lit(2), Var("y")]), Tup(vec![Var("x"), Lit(2)])]),
     ];
     for (name, arms) in fams2.iter() { push_arm_family(&mut out, &format!("function;{}", name), arms, 2, false); push_arm_family(&mut out, &format!("match;{}", name), arms, 2, true); }
+    // the same variable name at different positions of different arms: every arm starts from fresh bindings
+    let fams2x: Vec<(&str, Vec<Pat>)> = vec![
+      ("f2x;arms=(a,0),(b,a)", vec![Tup(vec![Var("a"), Lit(0)]), Tup(vec![Var("b"), Var("a")])]),
+      ("f2x;arms=(a,1),(0,a),(b,a)", vec![Tup(vec![Var("a"), Lit(1)]), Tup(vec![Lit(0), Var("a")]), Tup(vec![Var("b"), Var("a")])]),
+      ("f2x;arms=(x,2),(y,x),wild", vec![Tup(vec![Var("x"), Lit(2)]), Tup(vec![Var("y"), Var("x")]), Wild]),
+      ("f2x;arms=(1,p),(p,q),(q,p)", vec![Tup(vec![Lit(1), Var("p")]), Tup(vec![Var("p"), Lit(0)]), Tup(vec![Var("q"), Var("p")])]),
+    ];
+    for (name, arms) in fams2x.iter() { push_arm_family(&mut out, &format!("function;{}", name), arms, 2, false); push_arm_family(&mut out, &format!("match;{}", name), arms, 2, true); }
+    // tuple patterns of different arity against subjects of both arities (match expressions)
+    let famsm: Vec<(&str, Vec<Pat>)> = vec![
+      ("f23;arms=(a,b),(a,b,c),wild", vec![Tup(vec![Var("a"), Var("b")]), Tup(vec![Var("a"), Var("b"), Var("c")]), Wild]),
+      ("f23;arms=(0,b),(a,b,1),(a,b),wild", vec![Tup(vec![Lit(0), Var("b")]), Tup(vec![Var("a"), Var("b"), Lit(1)]), Tup(vec![Var("a"), Var("b")]), Wild]),
+      ("f23;arms=(a,*),(*,b,*),wild", vec![Tup(vec![Var("a"), Wild]), Tup(vec![Wild, Var("b"), Wild]), Wild]),
+    ];
+    for (name, arms) in famsm.iter() { push_arm_family(&mut out, &format!("match;{}", name), arms, 23, true); }
     // guards in match expressions: (pattern, guard text, predicate)
     let guards: Vec<(&str, &str, fn(u64) -> bool)> = vec![("x, x > 1u64", "gt1", |x| x > 1), ("x, x == 2u64", "eq2", |x| x == 2), ("x, x < 3u64", "lt3", |x| x < 3), ("x, x != 0u64", "ne0", |x| x != 0)];
     for perm in permutations(&[0usize, 1, 2, 3]) {
